@@ -90,6 +90,7 @@ def mapOpt {α β} (f : α → Option β) : List α → Option (List β)
 inductive RErr where
   | invalidPointer | pathNotFound | invalidArrayIndex | arrayIndexOutOfBounds
   | rootWriteRequiresObject | execution (code : Nat)
+  | unsupportedBodyFormat | invalidUtf8 | json | beve
   deriving DecidableEq, Repr
 
 /-- Variant name as in the Rust enum (key of the extracted `code()` table). -/
@@ -100,6 +101,10 @@ def RErr.name : RErr → String
   | .arrayIndexOutOfBounds => "ArrayIndexOutOfBounds"
   | .rootWriteRequiresObject => "RootWriteRequiresObject"
   | .execution _ => "Execution"
+  | .unsupportedBodyFormat => "UnsupportedBodyFormat"
+  | .invalidUtf8 => "InvalidUtf8"
+  | .json => "Json"
+  | .beve => "Beve"
 
 def lookupStr {β} (k : String) : List (String × β) → Option β
   | [] => none
@@ -510,6 +515,70 @@ def routerFind (prefixes : List (List Char)) (path : List Char) : Option (List C
 registry is dispatched with (`none` = "not below prefix", answered MethodNotFound). -/
 def mountPointer (prefixes : List (List Char)) (path : List Char) : Option (Option Ptr) :=
   (routerFind prefixes path).map fun pre => pointerFor pre path
+
+/-! ## `Registry::decode_body` and `RegisteredRegistry::handle` / `handle_with_ctx` -/
+
+/-- The body decoders of the dependencies (serde_json, beve, `str::from_utf8`) are opaque: parameters.
+In the correspondence run their outcome on the request's bytes is recorded from the real decoders. -/
+structure Decoders where
+  json : Bytes → Option J
+  beve : Bytes → Option J
+  utf8 : Bytes → Option (List Char)
+
+/-- `BodyFormat` discriminants as the model reads them (tied to constants.rs by `Gen.Registry.bodyFormats`). -/
+def fmtRaw : Nat := 0
+def fmtBeve : Nat := 1
+def fmtJson : Nat := 2
+def fmtUtf8 : Nat := 3
+
+/-- `Registry::decode_body`: an empty body is "no body" whatever the format; otherwise by format
+JSON / BEVE value, UTF-8 text as a string, raw bytes as an array of numbers; unknown format → error. -/
+def decodeBody (d : Decoders) (fmt : Nat) (body : Bytes) : PRes (Option J) :=
+  if body.isEmpty then .ok none
+  else if fmt = fmtJson then
+    match d.json body with
+    | some v => .ok (some v)
+    | none => .error .json
+  else if fmt = fmtBeve then
+    match d.beve body with
+    | some v => .ok (some v)
+    | none => .error .beve
+  else if fmt = fmtUtf8 then
+    match d.utf8 body with
+    | some s => .ok (some (.str s))
+    | none => .error .invalidUtf8
+  else if fmt = fmtRaw then .ok (some (.arr (body.map fun b => .num (toString b.toNat))))
+  else .error .unsupportedBodyFormat
+
+/-- A response as far as C14 looks at it: the error code (0 = success) and the JSON body of a success. -/
+structure Resp where
+  ec : Nat
+  body : Option J
+
+/-- `create_response_unstamped(req, value, Json)` / `create_error_response_like(req, err.code(), _)` -/
+def respond (code : RErr → Nat) : Res → Resp
+  | .ok v => ⟨0, some v⟩
+  | .error e => ⟨code e, none⟩
+
+/-- `RegisteredRegistry::handle` – identical text in `handle_with_ctx` – of the registry mounted at the
+normalised prefix `pre`: `pointer_for` (else MethodNotFound), `decode_body` (else its code), `dispatch`
+(value or its code). -/
+def Reg.handleAt (d : Decoders) (code : RErr → Nat) (notFound : Nat) (rc : Bool) (reg : Reg)
+    (pre : List Char) (path : List Char) (fmt : Nat) (body : Bytes) : Reg × Resp :=
+  match pointerFor pre path with
+  | none => (reg, ⟨notFound, none⟩)
+  | some ptr =>
+    match decodeBody d fmt body with
+    | .error e => (reg, ⟨code e, none⟩)
+    | .ok b =>
+      let (reg', r) := reg.dispatch rc ptr b
+      (reg', respond code r)
+
+/-- `Router::get(path)` (registry mounts only; `none` = the router has no handler for the path), then
+that mount's handler. -/
+def Reg.mountHandle (d : Decoders) (code : RErr → Nat) (notFound : Nat) (rc : Bool) (reg : Reg)
+    (prefixes : List (List Char)) (path : List Char) (fmt : Nat) (body : Bytes) : Option (Reg × Resp) :=
+  (routerFind prefixes path).map fun pre => reg.handleAt d code notFound rc pre path fmt body
 
 /-! ## `src/json_pointer.rs` -/
 
